@@ -230,6 +230,28 @@ static_assert(std::is_trivially_copy_constructible_v<Stamped> && std::is_trivial
               std::is_trivially_destructible_v<Stamped> && !std::is_trivially_copy_assignable_v<Stamped> &&
               !std::is_trivially_move_assignable_v<Stamped> && std::is_move_assignable_v<Stamped>);
 
+// User-provided copy construction / copy assignment (they count: a copy is one generation older than its source) but a
+// defaulted, trivial move constructor and a trivial destructor - e.g. a handle whose copy clones a slot. Relocating it
+// bytewise is fine, copying it bytewise skips the clone.
+struct Cloned
+{
+    int32_t key;
+    uint32_t generation{0};
+    explicit Cloned(int64_t k) noexcept : key(static_cast<int32_t>(k)) {}
+    Cloned(const Cloned& o) noexcept : key(o.key), generation(o.generation + 1) {}
+    Cloned(Cloned&&) = default;
+    Cloned& operator=(const Cloned& o) noexcept
+    {
+        key = o.key;
+        generation = o.generation + 1;
+        return *this;
+    }
+    Cloned& operator=(Cloned&&) = default;
+    friend bool operator==(const Cloned& a, const Cloned& b) { return a.key == b.key; }
+    friend bool operator<(const Cloned& a, const Cloned& b) { return a.key < b.key; }
+};
+static_assert(!std::is_trivially_copy_constructible_v<Cloned> && std::is_trivially_move_constructible_v<Cloned> && std::is_trivially_destructible_v<Cloned>);
+
 template <class T>
 inline constexpr bool is_tracked_v = std::is_same_v<T, Tracked> || std::is_same_v<T, TrackedMO>;
 
@@ -354,6 +376,12 @@ struct Val<Handle>
     static int64_t key(const Handle& v) { return v.fd; }
 };
 template <>
+struct Val<Cloned>
+{
+    static Cloned make(int64_t k) { return Cloned(k); }
+    static int64_t key(const Cloned& v) { return v.key; }
+};
+template <>
 struct Val<Stamped>
 {
     static Stamped make(int64_t k) { return Stamped(k); }
@@ -384,7 +412,7 @@ struct Val<std::unique_ptr<int>>
 template <class T>
 int64_t norm_key(int64_t k)
 {
-    if constexpr (is_tracked_v<T> || std::is_same_v<T, std::unique_ptr<int>> || std::is_same_v<T, SelfRef> || std::is_same_v<T, Handle> || std::is_same_v<T, Stamped>)
+    if constexpr (is_tracked_v<T> || std::is_same_v<T, std::unique_ptr<int>> || std::is_same_v<T, SelfRef> || std::is_same_v<T, Handle> || std::is_same_v<T, Stamped> || std::is_same_v<T, Cloned>)
         return k;
     else
     {
